@@ -64,6 +64,7 @@ class Net:
         self.not_before = 0
         self.postponed = 0
         self.unquiet_steps = 0
+        self.active = None
         Hdr = self.m["structs"].RF24NetworkHeader
         self._hdr = Hdr
         self._idattr = "_RF24NetworkHeader__next_id"
@@ -196,6 +197,10 @@ class Net:
         wn = nn.wnode
         try:
             while True:
+                comp = self._companion(nn)
+                if comp is not None:
+                    self._run_companion(nn, comp)
+                    continue
                 step = self._my_step(nn)
                 if step is not None:
                     self._run_step(nn, step)
@@ -214,6 +219,35 @@ class Net:
         except W.VirtualDeadline as e:
             nn.exc = e
             raise
+
+    def _companion(self, nn):
+        """a second call that must start WHILE the current step is still running (concurrency on
+        purpose): picked up by its node `delay_ms` after the main step began"""
+        st = self.active
+        if st is None:
+            return None
+        comp = st.get("companion")
+        if (comp is None or comp["who"] != nn.key or comp.get("started")
+                or nn.wnode.t < st["rec"]["t_call"] + int(comp.get("delay_ms", 10) * W.MS)):
+            return None
+        comp["started"] = True
+        return comp
+
+    def _run_companion(self, nn, comp):
+        wn = nn.wnode
+        rec = {"i": None, "who": nn.key, "t_call": wn.t, "ret": None, "exc": None, "air0": len(self.air.log)}
+        comp["rec"] = rec
+        try:
+            rec["ret"] = self.call(nn, comp["name"], comp["fn"], nn, deadline_ms=comp.get("deadline_ms", 5000))
+        except W.VirtualDeadline:
+            rec["exc"] = "deadline"
+        except W.StopNode:
+            raise
+        except Exception as e:  # noqa: BLE001
+            rec["exc"] = "%s: %s" % (type(e).__name__, e)
+        rec["t_ret"] = wn.t
+        rec["air1"] = len(self.air.log)
+        self.drain(nn)
 
     def _my_step(self, nn):
         if self.cur >= len(self.steps):
@@ -238,6 +272,7 @@ class Net:
         rec = {"i": self.cur, "who": nn.key, "t_call": wn.t, "ret": None, "exc": None,
                "air0": len(self.air.log)}
         st["rec"] = rec
+        self.active = st
         try:
             rec["ret"] = self.call(nn, st["name"], st["fn"], nn,
                                    deadline_ms=st.get("deadline_ms", 5000))
@@ -249,6 +284,7 @@ class Net:
             rec["exc"] = "%s: %s" % (type(e).__name__, e)
         rec["t_ret"] = wn.t
         rec["air1"] = len(self.air.log)
+        self.active = None
         self.results.append(rec)
         self.cur += 1
         self.not_before = wn.t + st.get("gap", self.quiet_gap)
